@@ -208,7 +208,7 @@ theorem Tie_liqmath_get_amounts (cx : NumCtx) (s : Nat) (ta tb : Int) (l d0 d1 :
   by_cases h1 : s ≤ x
   · have h1' : (s : Int) ≤ (x : Int) := by omega
     simp only [h1, h1', if_true, Tie_liqmath_get_amount0 cx x y l d0 hx (by omega), pure, Except.pure]
-    congr 2
+    try congr 2
   · have h1' : ¬ (s : Int) ≤ (x : Int) := by omega
     simp only [h1, h1', if_false]
     by_cases h2 : s < y
@@ -217,7 +217,7 @@ theorem Tie_liqmath_get_amounts (cx : NumCtx) (s : Nat) (ta tb : Int) (l d0 d1 :
         Tie_liqmath_get_amount1, pure, Except.pure, and_self]
     · have h2' : ¬ ((y : Int) > (s : Int) ∧ (s : Int) > (x : Int)) := by omega
       simp only [h2, h2', if_false, Tie_liqmath_get_amount1, pure, Except.pure]
-      congr 2
+      try congr 2
 
 theorem Tie.sortPair_of_le (x y : Nat) (h : x ≤ y) : sortPair x y = (x, y) := by
   unfold sortPair
